@@ -14,14 +14,19 @@ TECHNIQUE = ("Coq theorems (induction over the slot list for each of the three e
              "tables written by an independent resources.arsc writer in all encodings, with the type chunks located by the "
              "harness itself; the table-level statements are decided by the oracle")
 LEVEL_TEXT = ("Partial. Unbounded proof: for every slot list (entry present at an offset, or absent), any start index and any "
-              "following bytes, the dense 32-bit, the 16-bit and the sparse offset arrays are read back as exactly the "
-              "existing entries with their own resource ids; a plain and a compact entry record at any position of any file "
-              "are read back with their key, data type and data, a complex entry with its parent and exactly its items; the string pools are read back exactly (theorem of C26); "
-              "the walk over the table (table header, main pool, several packages - also of one name -, package header "
-              "and its two pools, type specs, types, library and unknown chunks, the package-count check) is modelled "
-              "(coq/Axml/ArscTableModel.v), compared with the code on every run and proved to end on every input (C35), "
-              "but that it delivers exactly the encoded packages and type chunks is not a theorem. Not proved either: "
-              "the listings (locales, types, key-to-id, resolved values) - they are compared with the "
+              "following bytes, the dense 32-bit, the 16-bit and the sparse offset arrays are read back as exactly the existing "
+              "entries with their own resource ids; a plain and a compact entry record at any position of any file are read "
+              "back with their key, data type and data, a complex entry with its parent and exactly its items; the string "
+              "pools are read back exactly (theorem of C26); a WHOLE type chunk (header, configuration of 52 bytes or more, dense "
+              "offset array, any records of the three kinds laid out one after the other) anywhere in a file is read back as "
+              "exactly its entries with the resource ids package<<24 | type<<16 | index; any sequence of type-spec and type "
+              "chunks of a package is walked in order and yields exactly the types; and for a whole file - table header, "
+              "package count, main string pool, one package with its header, type and key string pools (any strings, either "
+              "encoding) and any such chunks - parse_table returns that package with exactly the encoded types and entries "
+              "(coq/Axml/ArscTypeChunk.v, ArscTableProofs.v). The walk is also proved to end on every input (C35). Not "
+              "proved: tables with several packages, 16-bit and sparse offset arrays inside the whole-chunk theorem (they have "
+              "their own array theorems), unknown chunks in between; and the listings (locales, types, key-to-id, resolved "
+              "values) - all of these are modelled where they are part of the walk and compared with the code and with the "
               "generated table description on every run; reference resolution is C29, locale qualifiers are C30.")
 LEVEL_NOTE = ("Trusted: Coq kernel; coq/Axml/ArscTypeModel.v as a rendering of the type-chunk branch of ARSCParser.__init__ "
               "(the offset array is read at chunk start + header size, where ARSCResTableConfig leaves the stream on "
